@@ -144,6 +144,7 @@ type mockProvider struct {
 	mu     sync.Mutex
 	e      env
 	writer api.ShipConnectionDataWriterInterface
+	hook   func() // called (outside the mutex) after a state update has been recorded: a scheduling point of engine userrace
 }
 
 func (p *mockProvider) get() env {
@@ -184,6 +185,12 @@ func (p *mockProvider) HandleShipHandshakeStateUpdate(_ string, st model.ShipSta
 		s += "e"
 	}
 	p.r.add(s)
+	p.mu.Lock()
+	h := p.hook
+	p.mu.Unlock()
+	if h != nil {
+		h()
+	}
 }
 func (p *mockProvider) SetupRemoteDevice(_ string, w api.ShipConnectionDataWriterInterface) api.ShipConnectionDataReaderInterface {
 	p.r.add("SETUP")
